@@ -27,6 +27,7 @@ import logging
 import os
 import shutil
 
+from mitmproxy import ctx as mctx
 from mitmproxy import exceptions
 from mitmproxy import flowfilter
 from mitmproxy.addons import readfile
@@ -295,7 +296,8 @@ def make_file(spec):
         if len(ends) != len(flows):
             raise HarnessError("writer %s produced %d records for %d flows" % (spec["w"], len(ends), len(flows)))
     os.unlink(path)
-    _FILES[key] = (data, ends, want)
+    types = [G.tn_loads(data, st)[0]["type"] for st in ([0] + ends[:-1] if ends else [])]  # independent decoding
+    _FILES[key] = (data, ends, want, types)
     return _FILES[key]
 
 
@@ -322,23 +324,42 @@ for _h in _FIRST_HOOKS:
     setattr(Recorder, _h, lambda self, flow: self._seen(flow))
 
 
-def load_readfile(path):
-    """the real ReadFile.load_flows over a real file; the result is what reached the addons of the master
-    (a recording addon and the real View) through the real Master.load_flow"""
-    if not _RF:
+# loader name -> (readfile_filter option, independent predicate on the record's flow type)
+READFILE_LOADERS = {
+    "readfile": (None, lambda ty: True),
+    "readfile-filter-all": ("~all", lambda ty: True),
+    "readfile-filter-some": ("~http", lambda ty: ty == "http"),
+    "readfile-filter-none": ("~http & ~tcp", lambda ty: False),
+}
+
+
+def load_readfile(path, loader="readfile"):
+    """the real ReadFile.load_flows over a real file, with the loader's readfile_filter configured; the result is
+    what reached the addons of the master (a recording addon and the real View) through the real Master.load_flow"""
+    # one master per process (mitmproxy.ctx.master is a module global): the filter option is re-configured when it changes
+    if "loop" not in _RF:
         _RF["loop"] = asyncio.new_event_loop()
 
         async def setup():
             rf, rec, vw = readfile.ReadFile(), Recorder(), view.View()
-            _RF["rf"], _RF["rec"], _RF["view"], _RF["tctx"] = rf, rec, vw, taddons.context(rf, rec, vw)
+            _RF["ctx"] = (rf, rec, vw, taddons.context(rf, rec, vw))
+            _RF["flt"] = None
         _RF["loop"].run_until_complete(setup())
+    flt = READFILE_LOADERS[loader][0]
+    if _RF["flt"] != flt:
+        async def reconf():
+            _RF["ctx"][3].configure(_RF["ctx"][0], readfile_filter=flt)
+        _RF["loop"].run_until_complete(reconf())
+        _RF["flt"] = flt
     r = G.ReadResult()
     G.reset_module_state()
-    rf, rec, vw = _RF["rf"], _RF["rec"], _RF["view"]
+    rf, rec, vw, _ = _RF["ctx"]
     rec.flows = []
     vw.clear()
 
     async def go():
+        # other contexts created in this process (Save scenarios) re-point the module-global ctx: point it back at ours
+        mctx.master, mctx.options = _RF["ctx"][3].master, _RF["ctx"][3].master.options
         with open(path, "rb") as fo:
             return await rf.load_flows(fo)
 
@@ -361,16 +382,18 @@ def load_readfile(path):
 
 
 def load(path, loader):
-    if loader == "readfile":
-        return load_readfile(path)
+    if loader in READFILE_LOADERS:
+        return load_readfile(path, loader)
     with open(path, "rb") as fo:
         return G.read(fo)
 
 
-def judge_prefix(r, data_len, ends, want, o, feats, case, t: Tally):
-    """the crash-consistency oracle for a file cut at offset o"""
-    k = sum(1 for e in ends if e <= o)
+def judge_prefix(r, data_len, ends, want, o, feats, case, t: Tally, keep=None):
+    """the crash-consistency oracle for a file cut at offset o (`keep[i]`: record i passes the loader's filter)"""
+    nrec = sum(1 for e in ends if e <= o)
     on_boundary = o == 0 or o in ends
+    want = [w for i, w in enumerate(want[:nrec]) if keep is None or keep[i]]
+    k = len(want)
     t.judge("ends_cleanly_or_with_flow_read_error", r.end in ("clean", "flow_read_error"), dict(feats, exc=r.exc or "-"), case,
             "clean end or FlowReadException", "%s: %s" % (r.exc, r.msg))
     t.judge("never_a_partial_flow", len(r.flows) <= k, feats, case, "at most %d flows" % k, "%d flows" % len(r.flows))
@@ -392,14 +415,15 @@ def judge_prefix(r, data_len, ends, want, o, feats, case, t: Tally):
 
 
 def trunc_case(case, t: Tally):
-    data, ends, want = make_file(case["f"])
+    data, ends, want, types = make_file(case["f"])
     o = case["o"]
+    keep = [READFILE_LOADERS[case["r"]][1](ty) for ty in types] if case["r"] in READFILE_LOADERS else None
     path = _scratch("t.mitm")
     with open(path, "wb") as fo:
         fo.write(data[:o])
     r = load(path, case["r"])
     feats = {"writer": case["f"]["w"], "loader": case["r"], "cut": "boundary" if (o == 0 or o in ends) else ("length-prefix" if _in_prefix(data, ends, o) else "payload")}
-    b = judge_prefix(r, len(data), ends, want, o, feats, case, t)
+    b = judge_prefix(r, len(data), ends, want, o, feats, case, t, keep)
     t.case(case if (o % 997 == 0 and not b) else None, nontrivial=not b, key=case)
 
 
@@ -505,7 +529,11 @@ def file_specs(thorough):
     pair_pool = range(n) if thorough else [0, 1, 2, 4]  # quick: udp (same shape as tcp) only in single-flow files
     for s in itertools.product(pair_pool, repeat=2):
         both = (s[0] < 5 and s[1] < 5) if thorough else (s[0] in (0, 2, 4) and s[1] in (0, 2, 4))
-        out.append(({"w": "save.file", "s": list(s)}, ["reader", "readfile"] if both else ["reader"]))
+        loaders = ["reader", "readfile"] if both else ["reader"]
+        if both and (thorough or s[0] != s[1]):
+            # readfile_filter set: matching every flow, some flows (HTTP only), none
+            loaders += ["readfile-filter-all", "readfile-filter-some"] + (["readfile-filter-none"] if thorough else [])
+        out.append(({"w": "save.file", "s": list(s)}, loaders))
     if thorough:
         # three flows: every ordered choice of three distinct types, and three flows of the same type
         for s in list(itertools.permutations(range(5), 3)) + [(i, i, i) for i in range(5)]:
@@ -525,7 +553,7 @@ def run(ctx):
     nfiles = 0
     try:
         for spec, loaders in file_specs(thorough):
-            data, ends, want = make_file(spec)
+            data, ends, want, _ = make_file(spec)
             nfiles += 1
             for loader in loaders:
                 for o in range(len(data) + 1):
@@ -540,7 +568,7 @@ def run(ctx):
         "flow_pool": ["%s%s" % (t, d or "") for t, d in POOL], "max_flows_per_file": 3 if thorough else 2,
         "pair_pool": 8 if thorough else 4, "triples": "ordered triples of distinct base types + homogeneous triples (65 files)" if thorough else "none",
         "writers": ["save.file", "FilteredFlowWriter(None)", "FilteredFlowWriter(~all)", "Save addon stream"],
-        "loaders": ["FlowReader on a real file", "ReadFile.load_flows"], "truncation": "every offset 0..len",
+        "loaders": ["FlowReader on a real file", "ReadFile.load_flows"] + ["ReadFile.load_flows with readfile_filter=%s" % v[0] for v in READFILE_LOADERS.values() if v[0]], "truncation": "every offset 0..len",
         "hook_scenarios": {k: len(v) for k, v in SCENARIOS.items()}, "files": nfiles,
         "rotation_scenarios": "clock tick (strftime name change) before every step of the interleaved scenario%s; append mode at %s positions" % (
             " and every pair of positions" if thorough else "", "all" if thorough else "3"),
